@@ -77,11 +77,12 @@ CLAIMED["C10"] = dict(
          "group; every other tree and the header (incl. UUID) are literally unchanged; C10_new_tree/C10_append_all/C10_roots_* — "
          "trees with distinct root names saved one after the other give exactly one top-level tree per root, each the encoding of its "
          "source; C10_each_readable — each is readable by its root name and equals its source; C10_read_list — a read without a path "
-         "on a file with >= 2 roots reports exactly the root names.",
-    note="The mixed-list layout (root_savedlist, array_i / dictionary_i naming, rooted items alone under a copy of their root) is "
-         "modelled (EmdModel.SaveList, a transcription of the list branch of write()) and checked by the correspondence and by a "
-         "direct layout oracle on every generated list; no separate theorem is stated for the list layout beyond the per-save theorems "
-         "it is composed of.",
+         "on a file with >= 2 roots reports exactly the root names; C10_save_list — through save(path, [...]) itself: a list of "
+         "Roots, unrooted nodes, arrays and dicts saved to a fresh path gives the header plus exactly one top-level tree per root "
+         "(root_savedlist of the unrooted items first, then the given Roots whole, in order), each the encoding of its source.",
+    note="List items that are nodes of other trees (written alone under a copy of their root by an append-over under an emdpath) "
+         "are modelled (EmdModel.SaveList) and checked by the correspondence and a direct layout oracle on every generated list, "
+         "not proved. The array_i / dictionary_i naming inside root_savedlist is part of listRoots (model), compared with the code.",
     technique="Lean 4 frame/invariant proofs over the save dispatch + differential correspondence on interleaved list saves and appends",
     design="7 C10")
 CLAIMED["C11"] = dict(
